@@ -12,3 +12,5 @@ pub mod codec;
 pub mod sweeps;
 pub mod c14;
 pub mod c17;
+pub mod c16;
+pub mod c15;
